@@ -219,9 +219,12 @@ def pk(t) -> int:
     return sum(v << (8 * i) for i, v in enumerate(t))
 
 
-def corr_codecs(ck: Ck, cod: dict) -> None:
+def corr_codecs(ck: Ck, cod: dict):
     """Generated Coq codecs (evaluated by vm_compute) and the translator's IR (evaluated in Python) against the running
-    Python codecs."""
+    Python codecs.  The kernel evaluations are started in the background (six coqc processes); the function returned
+    waits for them and records the outcome, so that the caller can run its other Coq stages meanwhile (round 4: wall time
+    on a loaded machine).  Inputs are drawn from ck.rng here, results are recorded by the returned function: both at fixed
+    points of run(), so the run stays deterministic."""
     from concurrent.futures import ThreadPoolExecutor
     from srctools.vtf import ImageFormats
     n_rand = ck.budget(250, 2500)
@@ -282,9 +285,9 @@ def corr_codecs(ck: Ck, cod: dict) -> None:
             exprs.append(f'fp (map (fun d => pack (run (load_e codec_{name}) d)) all{bpp})')
             meta.append(('fp', name, None, py_fp(pk(l) for l in load_all)))
         elif bpp == 2:
-            # quick tier: the kernel evaluates a random eighth of the 2^16 stored values (the Python evaluation of the
+            # quick tier: the kernel evaluates a random sixteenth of the 2^16 stored values (the Python evaluation of the
             # translated expressions above is still exhaustive); the thorough tier and any broken tie run all of them
-            sub = sorted(ck.rng.sample(range(65536), 8192))
+            sub = sorted(ck.rng.sample(range(65536), 4096))
             lit3 = '[' + ';'.join(str(v) for v in sub) + ']'
             exprs.append(f'fp (map (fun v => pack (run (load_e codec_{name}) (unpack 2 v))) {lit3})')
             meta.append(('fp', name, None, py_fp(pk(load_all[v]) for v in sub)))
@@ -301,8 +304,19 @@ def corr_codecs(ck: Ck, cod: dict) -> None:
     def work(ig):
         i, g = ig
         return ck.coq_eval(IMPORTS, [e for ex, _ in g for e in ex], name=f'codecs{i}', preamble=PRE, timeout=900)
-    with ThreadPoolExecutor(max_workers=6) as ex:
-        results = list(ex.map(work, enumerate(groups)))
+    ex = ThreadPoolExecutor(max_workers=6)
+    futures = [ex.submit(work, ig) for ig in enumerate(groups)]
+
+    def finish() -> None:
+        results = [f.result() for f in futures]
+        ex.shutdown()
+        _corr_codecs_finish(ck, groups, results, full_sweep, special)
+    return finish
+
+
+def _corr_codecs_finish(ck: Ck, groups, results, full_sweep, special) -> None:
+    from srctools.vtf import ImageFormats
+    bad: list[dict] = []
     if any(r is None for r in results):
         ck.obligation('correspondence:coq-codecs', False, 'generated codecs could not be evaluated in Coq')
         ck.tie_broken.append('correspondence codecs: Coq evaluation failed')
@@ -328,7 +342,7 @@ def corr_codecs(ck: Ck, cod: dict) -> None:
     ck.count('coq_codec_evaluations', n_exact)
     ck.obligation('correspondence:coq-codecs', not bad,
                   f'{n_exact} save/load evaluations of Gen/PixelCodecs_gen.v by vm_compute equal the Python codecs (' + ('value by value' if full_sweep else 'by 61-bit fingerprint per format and direction; value by value in the thorough tier') + '); '
-                  f'{n_fp} stored-value sweeps (all 2^8 values; ' + ('all 2^16' if full_sweep else 'a random 2^13 of the 2^16') + f' values of the 2-byte formats) agree by 61-bit fingerprint: {len(bad)} disagreements')
+                  f'{n_fp} stored-value sweeps (all 2^8 values; ' + ('all 2^16' if full_sweep else 'a random 2^12 of the 2^16') + f' values of the 2-byte formats) agree by 61-bit fingerprint: {len(bad)} disagreements')
     if bad:
         ck.tie_broken.append('correspondence generated codecs vs _py_vtf_readwrite')
         ck.extra['codec_disagreement'] = bad[:5]
@@ -1829,6 +1843,36 @@ def corr_frames(ck: Ck, frame_ok: bool) -> None:
 
 
 # ================================================================================================ main
+class _Deferred:
+    """Runs Ck.instance_obligations in a background thread against a private list of obligations; merge() appends them to
+    the real Ck in the order of the calls to merge(), so the evidence is the same as for a sequential run."""
+
+    def __init__(self, ck: Ck, imports, obs: dict[str, str], name: str) -> None:
+        import threading
+        self.ck, self.obligations, self.tie_broken = ck, [], []
+        self.notes, self.scratch = ck.notes, ck.scratch
+        self.error: BaseException | None = None
+
+        def go():
+            try:
+                Ck.instance_obligations(self, imports, obs, name=name)
+            except BaseException as e:      # noqa: BLE001 - re-raised in merge()
+                self.error = e
+        self.thread = threading.Thread(target=go, daemon=True)
+        self.thread.start()
+
+    coq_eval = Ck.coq_eval
+    coq_scratch = Ck.coq_scratch
+    obligation = Ck.obligation
+
+    def merge(self) -> None:
+        self.thread.join()
+        if self.error is not None:
+            raise self.error
+        self.ck.obligations += self.obligations
+        self.ck.tie_broken += self.tie_broken
+
+
 def run(ck: Ck) -> None:
     _patch_known()
     ck.rule = ('codecs: every writable format; pixels = fixed corner cases + per-channel sweeps 0..255 (other channels random) + random '
@@ -1872,7 +1916,7 @@ def run(ck: Ck) -> None:
         cod, _ = c15_pixel.codecs_ir()
     built = ok1 and ok2 and ok3 and ok4 and ok5 and ck.build(['Props/C15.vo'])
     if built:
-        ck.theorems('Props/C15.v')
+        codecs_done = corr_codecs(ck, cod)     # six coqc processes in the background while the stages below run
         obs: dict[str, str] = {}
         for name in sorted(set(SPECS) | set(cod)):
             if name not in SPECS:
@@ -1912,12 +1956,15 @@ def run(ck: Ck) -> None:
             'nearest_filters_pick_block_corners': 'terms_eqb nearest_terms block_terms',
             'nearest_filters_use_the_same_texel_offsets_as_bilinear': 'nearest_offsets_same_as_bilinear',
         })
-        ck.instance_obligations(IMPORTS, obs)
-        ck.instance_obligations(IMPORTS_FRAME, FRAME_OBS, name='inst_frame')
-        ck.instance_obligations(IMPORTS_CONT, CONT_OBS, name='inst_cont')
-        ck.instance_obligations(IMPORTS_ACCESS, access_obligations(ck.extra['translated']['VtfAccess_gen']), name='inst_access')
+        # the four groups of instance obligations run in the background (two coqc each) while Print Assumptions runs here
+        groups = [_Deferred(ck, IMPORTS, obs, 'inst'), _Deferred(ck, IMPORTS_FRAME, FRAME_OBS, 'inst_frame'),
+                  _Deferred(ck, IMPORTS_CONT, CONT_OBS, 'inst_cont'),
+                  _Deferred(ck, IMPORTS_ACCESS, access_obligations(ck.extra['translated']['VtfAccess_gen']), 'inst_access')]
+        ck.theorems('Props/C15.v')
+        for g in groups:
+            g.merge()
         corr_container(ck)
-        corr_codecs(ck, cod)
+        codecs_done()
     corr_frames(ck, bool(built))
     search_codecs(ck)
     search_bounds(ck)
